@@ -378,6 +378,7 @@ func (in *l3Info) walk(mode int, inGroup bool, pos int, prev rune, s []rune, dep
 				for _, x := range a {
 					if fn && x == '/' {
 						in.slashInGroup = true
+						ok = false
 					}
 				}
 				if !in.walk(mode, true, l3Mid, '(', a, depth+1) {
